@@ -162,6 +162,11 @@ func (e *Engine) intrinsic(fn *ssa.Function, args []Val) (Val, bool) {
 	case "vSymbolic":
 		// true inside symgo (symbolic exploration and concrete re-execution alike), false natively
 		return Bool{C: true}, true
+	case "vCanonBytes":
+		// canonical, injective serialisation of a Go value (the model of a reflection-based codec)
+		var out []Val
+		e.canonSerialize(args[0], &out, 0)
+		return Slice{O: e.newObj(Agg{F: out}), Len: len(out), Cap: len(out)}, true
 	case "vOpaqueBytes":
 		// an opaque byte-string object standing for e.g. a ciphertext: unobservable content
 		return Iface{T: e.opaqueT, V: e.newOpaque(e.argStr(args[0], name), args[1:]...)}, true
@@ -873,10 +878,7 @@ func (e *Engine) stub(fn *ssa.Function, args []Val) (Val, bool) {
 	if o := fn.Origin(); o != nil {
 		full = o.String()
 	}
-	if s, ok := stubTable[full]; ok {
-		e.stubs[full]++
-		return s(e, fn, args), true
-	}
+	// a redirect declared by the suite wins over the built-in stub of the same function
 	if e.cfg != nil {
 		if target, ok := e.cfg.Redirects[full]; ok {
 			e.stubs[full+" => "+target]++
@@ -886,6 +888,10 @@ func (e *Engine) stub(fn *ssa.Function, args []Val) (Val, bool) {
 			}
 			return e.call(h, args, nil), true
 		}
+	}
+	if s, ok := stubTable[full]; ok {
+		e.stubs[full]++
+		return s(e, fn, args), true
 	}
 	pkg := ""
 	if fn.Pkg != nil {
